@@ -272,7 +272,13 @@ class Interface(object):
         if key in self.method_id_map:
             c = self.method_id_map[key].parent_class
             if c is None:
-                pass
+                # a service method. seeing the same one again is fine, another
+                # one that would answer to the same name is not.
+                om = self.method_id_map[key]
+                if om.function is not method.function:
+                    raise ValueError("\nThe message %r is defined more than "
+                              "once for the service '%s.%s'" % (method.name,
+                                     s.__module__, method.get_owner_name(s)))
 
             elif c is s:
                 pass
